@@ -13,14 +13,48 @@ enum Al {
     Par(Aligner<MatchParams>),
 }
 
+/// clip penalties set through Scoring's builder methods (xclip / yclip when both ends agree)
+fn via_builder<F: bio::alignment::pairwise::MatchFunc>(mut s: Scoring<F>, c: &[i32; 4]) -> Scoring<F> {
+    if c[0] == c[1] {
+        if c[0] != MIN_SCORE {
+            s = s.xclip(c[0]);
+        }
+    } else {
+        if c[0] != MIN_SCORE {
+            s = s.xclip_prefix(c[0]);
+        }
+        if c[1] != MIN_SCORE {
+            s = s.xclip_suffix(c[1]);
+        }
+    }
+    if c[2] == c[3] {
+        if c[2] != MIN_SCORE {
+            s = s.yclip(c[2]);
+        }
+    } else {
+        if c[3] != MIN_SCORE {
+            s = s.yclip_suffix(c[3]);
+        }
+        if c[2] != MIN_SCORE {
+            s = s.yclip_prefix(c[2]);
+        }
+    }
+    s
+}
+
 fn make(alpha: &[u8], sc: &Scheme, how: u64, k: usize, w: usize, cap: (usize, usize)) -> Al {
     match (sc.simple, how % 2) {
         (Some((m, mm)), 0) => {
             let mut s = Scoring::from_scores(sc.go, sc.ge, m, mm);
-            s.xclip_prefix = sc.clip[0];
-            s.xclip_suffix = sc.clip[1];
-            s.yclip_prefix = sc.clip[2];
-            s.yclip_suffix = sc.clip[3];
+            if how % 5 == 4 {
+                // the documented way: the builder methods of Scoring
+                s = via_builder(s, &sc.clip);
+            } else {
+                s.xclip_prefix = sc.clip[0];
+                s.xclip_suffix = sc.clip[1];
+                s.yclip_prefix = sc.clip[2];
+                s.yclip_suffix = sc.clip[3];
+            }
             Al::Par(if how % 4 == 0 {
                 Aligner::with_scoring(s, k, w)
             } else {
@@ -42,10 +76,14 @@ fn make(alpha: &[u8], sc: &Scheme, how: u64, k: usize, w: usize, cap: (usize, us
             if how % 3 == 0 {
                 s.match_scores = Some(((how % 5) as i32, -((how % 4) as i32)));
             }
-            s.xclip_prefix = sc.clip[0];
-            s.xclip_suffix = sc.clip[1];
-            s.yclip_prefix = sc.clip[2];
-            s.yclip_suffix = sc.clip[3];
+            if how % 5 == 4 {
+                s = via_builder(s, &sc.clip);
+            } else {
+                s.xclip_prefix = sc.clip[0];
+                s.xclip_suffix = sc.clip[1];
+                s.yclip_prefix = sc.clip[2];
+                s.yclip_suffix = sc.clip[3];
+            }
             Al::Tab(if how % 4 == 1 {
                 Aligner::with_scoring(s, k, w)
             } else {
@@ -143,7 +181,13 @@ pub fn run(log: &mut Log, tag: &str, alpha: &[u8], sc: &Scheme, how: u64, k: usi
         return;
     }
     let mut al = make(alpha, sc, how, k, w, cap);
+    let mut spare: Option<Al> = None;
     for (ci, (e, x, y)) in calls.iter().enumerate() {
+        if ci % 2 == 0 && !matches!(e, Entry::SetClips(_)) {
+            if let Some(sp) = spare.as_mut() {
+                std::mem::swap(&mut al, sp);
+            }
+        }
         if e.object_op() {
             let args = match e {
                 Entry::SetClips(c) => json!({"clip": [c[0], c[1], c[2], c[3]]}),
@@ -152,8 +196,9 @@ pub fn run(log: &mut Log, tag: &str, alpha: &[u8], sc: &Scheme, how: u64, k: usi
             let r = log.call(e.name(), args, || {
                 match e {
                     Entry::CloneSelf => {
+                        // the copy goes on; the original is kept and takes every second call from now on
                         let c = al.clone();
-                        al = c;
+                        spare = Some(std::mem::replace(&mut al, c));
                     }
                     Entry::CloneFrom => {
                         // another aligner with its own scheme, band parameters, capacity and history
@@ -189,6 +234,7 @@ pub fn run(log: &mut Log, tag: &str, alpha: &[u8], sc: &Scheme, how: u64, k: usi
                         }
                     }
                     Entry::SetClips(c) => {
+                        spare = None; // from here on there is one object again
                         macro_rules! setc {
                             ($a:expr) => {{
                                 let s = $a.get_mut_scoring();
